@@ -166,6 +166,7 @@ func (ch *channel) SendAndClose(ctx async.Context, data []byte) status.Status {
 	s.sendMu.Lock()
 	defer s.sendMu.Unlock()
 
+	vtrc("ldclosed", ch)
 	if s.closed.Load() {
 		return statusChannelClosed
 	}
@@ -179,6 +180,7 @@ func (ch *channel) SendAndClose(ctx async.Context, data []byte) status.Status {
 		s.sendWindow.Add(-size)
 
 		// Send message
+		vtrc("enq", ch)
 		return s.sender.sendClose(ctx, data)
 	}
 
